@@ -135,6 +135,14 @@ Theorem C09_fmt_count_holds : forall text nerr, (10 <= byte_lenZ text)%Z -> (0 <
 Proof. exact fmt_count_holds. Qed.
 Print Assumptions C09_fmt_count_holds.
 
+(* 11. the line table the judge recomputes from the text bytes is the model's line table (line_widths of the
+       newline-terminated grapheme list) — stated over the ASCII grapheme view (one grapheme per byte, CR LF one grapheme;
+       control characters width 0); for non-ASCII lines the judge only bounds the harness's counts (see line_okb). *)
+Theorem C09_ascii_line_table_agrees : forall s,
+  map bl_width (text_lines s) = map Z.of_nat (line_widths (init_source (gks_of_ascii s))).
+Proof. exact ascii_line_table_agrees. Qed.
+Print Assumptions C09_ascii_line_table_agrees.
+
 (* ---- non-vacuity ---- *)
 (* the assumptions are satisfiable and the model then produces a tree with the whole input consumed *)
 Example C09_example_tiny : leaf_ok tiny_leaves /\ L_parse tiny_leaves = PTree (l_len tiny_leaves).
